@@ -276,7 +276,7 @@ PROPS["C08"] = {
 
 PROPS["C07"] = {
     "level": "other",
-    "rules": [p_place.tab_plc, only(p_bitmap.prov_map, MAP_TRAVERSAL, "traversal fields"), only(p_symbols.tab_sym, SYM_GEOM, "geometry columns")],
+    "rules": [p_place.tab_plc, p_place.plc_rw, only(p_bitmap.prov_map, MAP_TRAVERSAL, "traversal fields"), only(p_symbols.tab_sym, SYM_GEOM, "geometry columns")],
     "explanation": "Clause-level claim by source-level comparison with the standard's reference placement program (Annex F.3, transcribed "
                    "independently; the repo's extra/symbol_placement.c is not the oracle). Decided after canonicalisation (polynomial "
                    "normal form over i, j, h, w; integer comparison normalisation; De Morgan): the five module tables (utah, corner1-4: "
